@@ -13,10 +13,11 @@ EXTENDS Integers, Sequences, FiniteSets, TLC, Json
 
 CONSTANTS Zs,          \* atomic numbers explored
           ZExact,      \* up to this Z the populations are computed exactly (32-bit integers); above, only the rates are prescribed
-          Pats         \* rate pattern parameters 0..2
+          Pats,        \* rate pattern parameters 0..2
+          Spans        \* 0: the small-integer rate patterns; s > 0: rates that are powers of ten spread over ~s orders of magnitude
 
-VARIABLES Z, a, b, c, dn, dq
-vars == <<Z, a, b, c, dn, dq>>
+VARIABLES Z, a, b, c, dn, dq, span
+vars == <<Z, a, b, c, dn, dq, span>>
 
 \* donor ratio n_D / n_e as P/Q
 Donor(i) == CASE i = 0 -> <<0, 1>> [] i = 1 -> <<1, 2>> [] i = 2 -> <<2, 1>>
@@ -37,7 +38,18 @@ RECURSIVE SumW(_)
 SumW(z) == IF z < 0 THEN 0 ELSE Wt(z) + SumW(z - 1)
 Total == SumW(Z)
 
-Init == Z \in Zs /\ a \in Pats /\ b \in Pats /\ c \in Pats /\ dn \in 0..2 /\ dq \in 0..1 /\ (dn = 0 => dq = 0)
+\* ---- widely spread rates: S_z = 10^-SExp(z), alpha_z = 10^-AExp(z), no donor.  Every weight is a power of ten,
+\* w_z = 10^LogW(z), so the exact populations are given by integers however many orders of magnitude the rates span.
+SExp(z) == 14 + (span * ((5 * z + 3 * a) % 7)) \div 6
+AExp(z) == 14 + (span * ((3 * (z - 1) + 2 * a + 1) % 5)) \div 4
+RECURSIVE SumSE(_), SumAE(_)
+SumSE(z) == IF z = 0 THEN 0 ELSE SExp(z - 1) + SumSE(z - 1)             \* sum_{k<z} SExp(k)
+SumAE(z) == IF z >= Z THEN 0 ELSE AExp(z + 1) + SumAE(z + 1)           \* sum_{k>z} AExp(k)
+LogW(z) == 0 - SumSE(z) - SumAE(z)
+WideBalance == span > 0 => \A z \in 0..(Z - 1) : LogW(z) - SExp(z) = LogW(z + 1) - AExp(z + 1)
+
+Init == /\ Z \in Zs /\ a \in Pats /\ b \in Pats /\ c \in Pats /\ dn \in 0..2 /\ dq \in 0..1 /\ (dn = 0 => dq = 0)
+        /\ span \in Spans /\ (span > 0 => b = 0 /\ c = 0 /\ dn = 0 /\ Z <= 6)
 Next == UNCHANGED vars
 Spec == Init /\ [][Next]_vars
 
@@ -53,7 +65,7 @@ MeanChargePositive == Small => SumZW(Z) > 0
 \* without a donor the CX rates are irrelevant
 NoDonorNoCx == dn = 0 => \A z \in 1..Z : QR(z) = Alpha(z)
 
-EmitCase == PrintT(ToJson([Z |-> Z, S |-> [z \in 1..Z |-> S(z - 1)], alpha |-> [z \in 1..Z |-> Alpha(z)], cx |-> [z \in 1..Z |-> Cx(z)],
+EmitCase == PrintT(ToJson([span |-> span, pat |-> a, sexp |-> [z \in 1..Z |-> SExp(z - 1)], aexp |-> [z \in 1..Z |-> AExp(z)], logw |-> [z \in 1..(Z + 1) |-> LogW(z - 1)], Z |-> Z, S |-> [z \in 1..Z |-> S(z - 1)], alpha |-> [z \in 1..Z |-> Alpha(z)], cx |-> [z \in 1..Z |-> Cx(z)],
                            donor |-> Donor(dn), dq |-> dq, w |-> IF Small THEN [z \in 1..(Z + 1) |-> Wt(z - 1)] ELSE <<>>,
                            total |-> IF Small THEN Total ELSE 0, zw |-> IF Small THEN SumZW(Z) ELSE 0]))
 =============================================================================
